@@ -20,6 +20,7 @@ SSWU_S = {'fn': MOD + '.SSWU', 'op': 'sswu', 'params': ['in'], 'results': ['new'
 SUMM = FIELD_SUMM + [SQRT_SUMM, SSWU_S]
 NAMES = {0: 'HashToGroup', 1: 'EncodeToGroup'}
 PROBE = '(*' + MOD + '.Element).addAffine3Iso2'
+TWICE = [(3, 16), (3, 300)]   # second of two consecutive calls (fresh buffers / first DST buffer overwritten in place)
 LAYCOMBOS = [(3, 16), (0, 1), (64, 255), (3, 256)]   # extra buffer layouts: spare capacity, window, message and DST adjacent in one frame (both orders)
 
 
@@ -56,8 +57,8 @@ def byte_names(m, d, lay):
     return ['msg_%d' % i for i in range(m)], ['dst_%d' % i for i in range(d)]
 
 
-def check_one(ck, r, fn, m, d, failures, lay=0):
-    tag = 'C08.%s.m%d.d%d' % (NAMES[fn], m, d) + ('.layout%d' % lay if lay else '')
+def check_one(ck, r, fn, m, d, failures, lay=0, label=''):
+    tag = 'C08.%s.m%d.d%d' % (NAMES[fn], m, d) + ('.layout%d' % lay if lay else '') + ('.' + label if label else '')
     ok = len(r.paths) == 1 and r.paths[0]['end'] == 'return'
     if not ck.ground(tag + '.shape', 'single returning path: no content-dependent branch, no panic', ok, str([(p['end'], p.get('panic') or p.get('err')) for p in r.paths][:2])):
         failures.append(tag)
@@ -65,7 +66,8 @@ def check_one(ck, r, fn, m, d, failures, lay=0):
     p = r.paths[0]
     o = p['obs']
     low = HLower(r)
-    h2f = [n for n in r.nodes if n['op'] == 'app' and n['n'] == 'fh2f']
+    ocone = set(r.cone([x for c_ in 'xyz' for x in o['E.' + c_]['f']]))   # only what the observed result depends on
+    h2f = [n for n in r.nodes if n['op'] == 'app' and n['n'] == 'fh2f' and n['id'] in ocone]
     want = 2 if fn == 0 else 1
     if not ck.ground(tag + '.h2f', '%d hash_to_field reductions over 48-byte windows' % want, len(h2f) == want and all(len(r.nodes[n['a'][0]]['a']) == 48 for n in h2f)):
         failures.append(tag)
@@ -96,14 +98,14 @@ def check_one(ck, r, fn, m, d, failures, lay=0):
                     if j0 % 4 == 0 and [k.get('i', 0) for k in kids] == [j0, j0 + 1, j0 + 2, j0 + 3]:
                         out['xyz'[j0 // 4]] = n['id']
         return out
-    sw = [n['id'] for n in r.nodes if n['op'] == 'app' and n['n'] == 'sswu']
+    sw = [n['id'] for n in r.nodes if n['op'] == 'app' and n['n'] == 'sswu' and n['id'] in ocone]
     okm = len(sw) == want and [r.nodes[s]['a'][0] for s in sw] == [n['id'] for n in h2f]
     if not ck.ground(tag + '.sswu', 'SSWU is applied to u0%s, in this order' % (' and u1' if fn == 0 else ''), okm):
         failures.append(tag + '.sswu')
         return
     q = [sswu_coord_nodes(s) for s in sw]
     if fn == 0:
-        pk = [k for k in o if k.startswith('probe:') and 'addAffine3Iso2' in k]
+        pk = sorted(k for k in o if k.startswith('probe:') and 'addAffine3Iso2' in k)[-1:]   # the last call's addition
         if not ck.ground(tag + '.addcall', 'the two images are combined by one affine addition on E\'', len(pk) == 1):
             failures.append(tag + '.add')
             return
@@ -151,7 +153,7 @@ def check_one(ck, r, fn, m, d, failures, lay=0):
         g3.append((tag + '.cond%d' % ci, 'conditional-move condition is 0 or 1', '(assert (not (bvule n%d (_ bv1 64))))' % c_))
     a3 = ck.prove_batch(lb.all(), g3, timeout=90)
     failures += [g[0] for g, a in zip(g3, a3) if a != 'unsat']
-    inputs = {n['n'].rsplit('_', 1)[0] for n in r.nodes if n['op'] == 'var'}
+    inputs = {n['n'].rsplit('_', 1)[0] for n in r.nodes if n['op'] == 'var' and n['id'] in ocone}
     if not ck.ground(tag + '.deterministic', 'the result depends on nothing but msg and DST bytes (no other input, no global state read)', inputs <= {'msg', 'dst', 'msgbuf', 'dstbuf', 'frame'}, str(inputs)):
         failures.append(tag)
     if not ck.ground(tag + '.fresh', 'a fresh element is returned; msg and DST are not written', bool(o['efresh'].get('fresh')) and not p['writes'], str(p['writes'][:1])):
@@ -173,6 +175,9 @@ def run(tier, seed):
         for lay in (1, 2, 3, 4):
             for (m, d) in LAYCOMBOS:
                 jobs.append({'id': 'h%d_%d_%d_L%d' % (fn, m, d, lay), 'harness': 'vh_hash', 'args': [fn, m, d, lay], 'summaries': SUMM, 'probes': [PROBE]})
+        for mode in (0, 1):
+            for (m, d) in TWICE:
+                jobs.append({'id': 'tw%d_%d_%d_%d' % (fn, m, d, mode), 'harness': 'vh_hash_twice', 'args': [fn, m, d, mode], 'summaries': SUMM, 'probes': [PROBE]})
         for isnil in (0, 1):
             jobs.append({'id': 'nodst%d_%d' % (fn, isnil), 'harness': 'vh_hash_nodst', 'args': [fn, 3, isnil], 'summaries': SUMM})
         jobs.append({'id': 'nilmsg%d' % fn, 'harness': 'vh_hash_nilmsg', 'args': [fn, 16], 'summaries': SUMM})
@@ -197,6 +202,10 @@ def run(tier, seed):
             for (m, d) in LAYCOMBOS:
                 check_one(ck, R_['h%d_%d_%d_L%d' % (fn, m, d, lay)], fn, m, d, failures, lay)
     for fn in (0, 1):
+        for mode in (0, 1):
+            for (m, d) in TWICE:
+                check_one(ck, R_['tw%d_%d_%d_%d' % (fn, m, d, mode)], fn, m, d, failures, lay=0, label='second-call%d' % mode)
+    for fn in (0, 1):
         for isnil in (0, 1):
             r = R_['nodst%d_%d' % (fn, isnil)]
             okp = len(r.paths) == 1 and r.paths[0]['end'] == 'panic' and r.paths[0]['panic'] == 'err:zero-length DST' and not any(n['op'] == 'sha256' for n in r.nodes)
@@ -220,22 +229,8 @@ def run(tier, seed):
 
 
 def battery(ck, failures, combos):
-    import random
-    rng = random.Random(ck.seed + 9)
-    cases = []
-    for (m, d) in sorted(set(combos))[:80]:
-        for op in ('RO', 'NU'):
-            cases.append({'kind': 'h2c', 'op': op, 'a': ''.join('%02x' % rng.getrandbits(8) for _ in range(m)), 'b': ''.join('%02x' % rng.getrandbits(8) for _ in range(d))})
-    from props.C08 import LAYCOMBOS as LC
-    for lay in (1, 2, 3, 4):
-        for (m, d) in LC:
-            for op in ('RO', 'NU'):
-                cases.append({'kind': 'h2-layout', 'op': op, 'n': lay, 'a': ''.join('%02x' % rng.getrandbits(8) for _ in range(m)), 'b': ''.join('%02x' % rng.getrandbits(8) for _ in range(d))})
-    cases.append({'kind': 'h2-panic', 'a': 'aa', 'b': '', 'n': 0})
-    cases.append({'kind': 'h2-panic', 'a': 'aa', 'b': '', 'n': 1})
-    for (m, d) in [(0, 1), (3, 16), (64, 255), (64, 256), (5, 300)]:
-        for n in (48, 96):
-            cases.append({'kind': 'xmd', 'a': 'ab' * m, 'b': 'cd' * d, 'n': n})
+    from props import fallback
+    cases = fallback.cases_for('C08', ck.seed)
     path = ck.save_replay({'property': ck.pid, 'cases': cases, 'failed': failures[:10]})
     ok, out = core.go_test(path)
     if not ok and 'MISMATCH' in out:
